@@ -631,14 +631,21 @@ fn run_droprace(rounds: usize) -> String {
         let (_gtx, grx) = unbounded::<Out>();
         let q = QueuingMetricSink::with_capacity(Gated { ev: etx, go: grx }, 4);
         let q2 = q.clone();
-        let barrier = Arc::new(std::sync::Barrier::new(2));
-        let (b1, b2) = (barrier.clone(), barrier.clone());
+        // spin barrier: both threads leave it within nanoseconds of each other
+        let gate = Arc::new(AtomicU64::new(0));
+        let (g1, g2) = (gate.clone(), gate.clone());
         let t1 = std::thread::spawn(move || {
-            b1.wait();
+            g1.fetch_add(1, Ordering::AcqRel);
+            while g1.load(Ordering::Acquire) < 2 {
+                std::hint::spin_loop();
+            }
             drop(q);
         });
         let t2 = std::thread::spawn(move || {
-            b2.wait();
+            g2.fetch_add(1, Ordering::AcqRel);
+            while g2.load(Ordering::Acquire) < 2 {
+                std::hint::spin_loop();
+            }
             drop(q2);
         });
         let _ = t1.join();
